@@ -69,6 +69,9 @@ impl Report {
 
     /// Writes replay files and the evidence file, prints verdict lines, returns exit code.
     pub fn finish(mut self) -> i32 {
+        if crate::engine::REPLAY_TARGET.get().is_some() {
+            return self.finish_replay();
+        }
         let known = load_known_findings();
         let mut real: Vec<&Violation> = vec![];
         let mut known_hits: BTreeMap<String, (u64, String)> = BTreeMap::new();
@@ -129,6 +132,8 @@ impl Report {
             let path = dir.join(format!("{}-{}.json", self.tier, i));
             let body = json!({
                 "property": self.prop,
+                "tier": self.tier,
+                "context": v.context,
                 "kind": v.kind,
                 "finding_signature_matched": v.finding,
                 "history": v.history,
@@ -272,6 +277,30 @@ impl Report {
             return 2;
         }
         0
+    }
+}
+
+impl Report {
+    /// Replay mode: report whether the recorded violation occurs again; writes nothing.
+    fn finish_replay(self) -> i32 {
+        let n = self.out.violations.len();
+        for v in &self.out.violations {
+            crate::util::say(&format!(
+                "REPLAY property={} kind={} finding_signature={:?} detail={}",
+                self.prop, v.kind, v.finding, v.detail
+            ));
+        }
+        crate::util::say(&format!(
+            "REPLAY property={} reproduced={} ({} violation(s) at the recorded history)",
+            self.prop,
+            n > 0,
+            n
+        ));
+        if n > 0 {
+            1
+        } else {
+            0
+        }
     }
 }
 
